@@ -423,6 +423,28 @@ def run(chk, facts, tier, only=None):
         tail = unblock(h["body"]["e"]) if h["body"].get("e") else {}
         ret_res = tail.get("k") == "call" and (callee(tail) or "").endswith("Result::Ok") and \
             root_local(hs, tail["args"][0]) is root_local(hs, gocall["args"][p_res.idx]) is not None
+        # every definition of the list is scanned: the call of go is a statement of the loop body itself, not under a condition
+        # (a body skipped because its name is already known to be recursive can hold the only forward reference to a later definition)
+        def direct(st, call):
+            s0 = st.get("e") if st.get("k") == "semi" else st
+            for _ in range(4):
+                if s0 is call:
+                    return True
+                if isinstance(s0, dict) and s0.get("k") == "match" and s0.get("src") == "TryDesugar":
+                    s0 = s0["scrut"]
+                    if s0.get("k") == "call" and (callee(s0) or "").endswith("Try::branch") and s0.get("args"):
+                        s0 = s0["args"][0]
+                elif isinstance(s0, dict) and s0.get("k") == "slet" and s0.get("init") is not None:
+                    s0 = s0["init"]
+                else:
+                    break
+            return s0 is call
+        uncond = any(direct(stmts[i], gocall) for i in i_go)
+        chk.expect(uncond, "infer_rec:every-body-scanned",
+                   "infer_rec: the scan `go(seen, res, env, body)` must run for every definition of the list (a plain statement of the loop body); "
+                   "under a condition some bodies are skipped and a forward reference inside them is never marked recursive, so the generated "
+                   "code reads a `const` before its declaration", where=f"{h['span']['file']}:{gocall.get('ln')}",
+                   ok_detail="go(..)? is an unconditional statement of the loop over def_list")
         chk.expect(max(i_go) < min(i_ins) and same_seen and ret_res, "infer_rec:define-after-body",
                    "infer_rec must scan the body of a definition before marking the definition itself as passed (a self reference is a forward "
                    f"reference), on the same `seen` set, and return the `res` set filled by go (order ok: {max(i_go) < min(i_ins)}, same set: {same_seen}, "
@@ -523,6 +545,23 @@ def run(chk, facts, tier, only=None):
                     bs = [b for b in sc.binders if b.ctx is a]
                     return bs[0] if len(bs) == 1 else None
             return None
+        # JavaScript inserts a semicolon after a `return` that is followed by a line break: the word must be printed with a hard space
+        # (kwd("return")), never as bare text that a breakable separator can follow
+        rets = [x for x in walk(h["body"]) if x.get("k") == "lit" and isinstance(x["v"].get("str"), str) and x["v"]["str"].strip() == "return"]
+        n_kwd = 0
+        for x in rets:
+            par = sc.parent.get(id(x))
+            for _ in range(3):
+                if par is not None and par.get("k") not in ("call", "mcall"):
+                    par = sc.parent.get(id(par))
+            via = (callee(par) or "") if par is not None and par.get("k") in ("call", "mcall") else ""
+            hard = via.endswith("pretty::utils::kwd") or x["v"]["str"].endswith(" ")
+            n_kwd += 1 if hard else 0
+            chk.expect(hard, "compile:return-hard-space",
+                       f"javascript::compile prints `return` through `{via or 'a bare literal'}`: unless the word carries a hard space (kwd) the "
+                       f"layout can break the line after it, and `return⏎[..]` evaluates as `return;` (automatic semicolon insertion)",
+                       where=f"{h['span']['file']}:{x.get('ln')}", ok_detail="kwd(\"return\")")
+        chk.floor("`return` statements printed by javascript::compile", n_kwd, 2)
         for tag, defs_call, ret_call in (("factory", fac[0]["call"], pa[0]), ("init", ini[0]["call"], pr[0])):
             Dd, Rr = holder(defs_call), holder(ret_call)
             ok = False
